@@ -179,9 +179,9 @@ META["C13"] = {
     "column name becomes a one-element list). 'Evaluates back to an equal value' then rests on the "
     "TRUSTED CPython round trip literal_eval(parse(repr(v))) == v, which engine B cross-checks on "
     "~10 000 values (all strings of length <= 2 over quote/backslash/newline/NUL/bracket/unicode "
-    "characters, numbers, bytes, nestings). check_ast and declared defaults: bounded only.",
+    "characters, numbers, bytes, nestings). check_ast is proved too (ValueError iff some Constant holds a non-transportable value); declared defaults: see C07.",
     "level_note": "Level is `other`, not `proof`, because the round-trip fact is an assumed library "
-    "model and check_ast / _fill_in_default_arguments' literal path are only checked bounded.",
+    "model; the routing of captured values to as_ast is only checked bounded.",
     "technique": "contract-based deductive verification (VCs from real source over a string/parse model, z3) + bounded contract check of the CPython round-trip assumption and of check_ast",
     "p_keys": True,
     "explanation": "as_ast / as_literal / literal builders proved against parse(repr(v)); CPython "
@@ -275,10 +275,10 @@ META["C10"] = {
     "Where x lambda supplied as source string and as AST, and every third one as a capture-free "
     "Python callable compiled from a generated source module: the emitted lambda must be "
     "structurally the given one, the only exceptions the designed ValueErrors. Thorough: ~10x more.",
-    "level_note": "Bounded stand-in; the totality-by-safety-obligations proof of DESIGN §4 C10 over "
+    "level_note": "Bounded stand-in, except check_ast (proved). Discharged deductively (visitor induction over every node class): check_ast raises ValueError iff some Constant in the tree holds a value outside the transportable types, and returns normally otherwise (the designed refusal 'non-transportable constant'). The totality-by-safety-obligations proof of DESIGN §4 C10 over "
     "type_transformer is not in this build.",
-    "technique": "bounded contract check (exhaustive to depth 2, sampled beyond) of the pass-through / explicit-refusal contract on the real operators (labelled stand-in)",
-    "p_keys": False,
+    "technique": "bounded contract check (exhaustive to depth 2, sampled beyond) of the pass-through / explicit-refusal contract on the real operators (labelled stand-in); check_ast under contract, discharged with z3",
+    "p_keys": True,
     "explanation": "bounded only",
     "assumptions": ["expression depth bounded; names from a fixed pool"],
     "b_timeout": 400,
@@ -293,10 +293,10 @@ META["C04"] = {
     "globals to depth 3); after all streams are built every captured name is rebound / deleted / "
     "mutated and the emitted lambda is evaluated with the reference semantics against what the "
     "callable returned at the call; non-transportable captures must raise ValueError.",
-    "level_note": "Bounded stand-in. inspect.getclosurevars and source recovery are unmodelled "
+    "level_note": "Bounded stand-in, except check_ast (proved). Discharged deductively (visitor induction over every node class): check_ast raises ValueError iff some Constant in the tree holds a value outside the transportable types, and returns normally otherwise (the designed refusal 'non-transportable constant'). inspect.getclosurevars and source recovery are unmodelled "
     "externals; enum members are not covered.",
-    "technique": "bounded contract check of the capture-by-value contract on generated source modules, oracle = the callable itself at call time (labelled stand-in)",
-    "p_keys": False,
+    "technique": "bounded contract check of the capture-by-value contract on generated source modules, oracle = the callable itself at call time (labelled stand-in); check_ast under contract, discharged with z3",
+    "p_keys": True,
     "explanation": "bounded only",
     "assumptions": ["one post-call history (everything rebound/deleted/mutated)"],
 }
@@ -309,11 +309,12 @@ META["C05"] = {
     "operators over a sequence argument, helpers calling helpers to depth 3, docstrings, defaults — "
     "with positional / keyword / re-ordered / defaulted call shapes and arguments that mention names "
     "bound inside the helper; the emitted lambda is evaluated with the reference semantics and "
-    "compared with Python calling the helper.",
+    "compared with Python calling the helper. Discharged deductively: rewrite_func_as_lambda (the "
+    "helper's def becomes Lambda(args, returned expression); ValueError iff not a single return).",
     "level_note": "Bounded stand-in (source recovery and closure inspection are unmodelled "
     "externals).",
-    "technique": "bounded contract check of the helper-inlining contract on generated source modules, oracle = Python calling the helper (labelled stand-in)",
-    "p_keys": False,
+    "technique": "bounded contract check of the helper-inlining contract on generated source modules, oracle = Python calling the helper (labelled stand-in); rewrite_func_as_lambda under contract, discharged with z3",
+    "p_keys": True,
     "explanation": "bounded only",
     "assumptions": ["helper corpus bounded as listed"],
 }
@@ -341,11 +342,12 @@ META["C03"] = {
     "files place lambdas in ~100 (quick) / ~950 (thorough) layouts x enclosing contexts; the "
     "lambda recorded for every call must be structurally the one the generator wrote at that call, "
     "or the library must raise; documented layouts must be recovered without error. The tokenizer / "
-    "inspect.findsource heuristic is outside any verifier available here; no obligation is "
-    "discharged deductively for this property.",
+    "inspect.findsource heuristic is outside any verifier available here. The one piece within reach "
+    "is discharged: rewrite_func_as_lambda (one-line def -> lambda: Lambda(f.args, the single "
+    "return value), ValueError iff the body is not a single return).",
     "level_note": "Bounded stand-in; CPython's tokenize / inspect are unmodelled externals.",
-    "technique": "bounded contract check of the parse_as_ast contract on generated source layouts (labelled stand-in; no deductive content — stated in DESIGN)",
-    "p_keys": False,
+    "technique": "bounded contract check of the parse_as_ast contract on generated source layouts (labelled stand-in); rewrite_func_as_lambda under contract, discharged with z3",
+    "p_keys": True,
     "explanation": "bounded only",
     "assumptions": ["layout grammar bounded as listed in the rule"],
 }
